@@ -441,6 +441,15 @@ func (exp *exporter) InlineImage(image string, link string, id string, punct str
 	}
 }
 
+// escapeURL escapes what is special inside the argument of \url and \href:
+// the percent sign, and braces and backslashes, which url.URL.String leaves as
+// they are in the query (it percent-encodes them everywhere else).
+func escapeURL(u string) string {
+	return urlEscaper.Replace(u)
+}
+
+var urlEscaper = strings.NewReplacer("%", "\\%", "{", "\\%7B", "}", "\\%7D", "\\", "\\%5C")
+
 func (exp *exporter) LkWithLabel(uri string, label string, punct string) {
 	ctx := exp.Context()
 	w := ctx.W()
@@ -449,7 +458,7 @@ func (exp *exporter) LkWithLabel(uri string, label string, punct string) {
 	if err != nil {
 		ctx.Error("invalid url or path:", uri)
 	} else {
-		u = escape.LaTeXPercent(parsedURL.String())
+		u = escapeURL(parsedURL.String())
 	}
 	fmt.Fprintf(w, "\\href{%s}{%s}%s", u, escape.LaTeX(label), punct)
 }
@@ -462,7 +471,7 @@ func (exp *exporter) LkWithoutLabel(uri string, punct string) {
 	if err != nil {
 		ctx.Error("invalid url or path:", uri)
 	} else {
-		u = escape.LaTeXPercent(parsedURL.String())
+		u = escapeURL(parsedURL.String())
 	}
 	fmt.Fprintf(w, "\\url{%s}%s", u, punct)
 }
